@@ -25,7 +25,7 @@ _GL = np.polynomial.legendre.leggauss(16)
 
 
 def budget_s(tier):
-    return 300 if tier == "quick" else 1800
+    return 600 if tier == "quick" else 1800
 
 
 def shards(tier):
